@@ -242,6 +242,8 @@ P08known == AtWait => JustifiedD(C, ph, deliv)        \* violated: the known fin
 NoSpin == ~(pc = "head" /\ graph # {} /\ runnable = {} /\ concRun = {} /\ asyncRun = {})
 NoStuck == (pc \notin {"exit", "raised"}) => ENABLED Next
 P09 == <>(pc \in {"exit", "raised"})
+(* C17: the kind of future a node is awaited through follows its resource *)
+P17 == (\A n \in concRun : res[n] = "thread") /\ (\A n \in asyncRun : res[n] = "async")
 (* C14 *)
 P14 == /\ pc = "disp" => NoFailedAncestor(C, ph, cur) /\ ~obsFail
        /\ outcome = "raise" => \E n \in Sel : st[n] = "failed"
